@@ -621,4 +621,214 @@ theorem xl_setPen_effect {rw} {rc : RenderCfg} (hx : XtermLike rc.ti = true) (hd
   simp only [ite_bold, ite_reverse, ite_blink, ite_dim, ite_italic, ite_strike]
   simp [withPen, reset, penOf, hurl, hb1, hb7]
 
+
+/-! ## showCursor -/
+
+def withModes (t : Term) (m : Modes) : Term := { t with modes := m }
+
+theorem good_withModes {rw} {t : Term} (g : Good rw t) {m : Modes} (h : ModesOk t.modes m) : Good rw (withModes t m) :=
+  good_of_eq g rfl rfl h rfl
+
+theorem ModesOk.trans {a b c : Modes} (h1 : ModesOk a b) (h2 : ModesOk b c) : ModesOk a c :=
+  ⟨h2.font.trans h1.font, h2.g0.trans h1.g0, h2.so.trans h1.so, h2.irm.trans h1.irm, h2.am.trans h1.am⟩
+
+theorem decset25_effect {rw} {t : Term} (g : Good rw t) :
+    t.feed [27,91,63,50,53,104] = withModes t { t.modes with cursorVisible := true } := by
+  have := decset_effect t g.st 25
+  have d : dec 25 = [50, 53] := by decide
+  rw [d] at this
+  have e : t.feed [27,91,63,50,53,104] = t.decMode 25 true := by simpa [csiSeq] using this
+  rw [e]; simp [decMode, withModes]
+
+theorem decset12_effect {rw} {t : Term} (g : Good rw t) :
+    t.feed [27,91,63,49,50,104] = withModes t { t.modes with cursorBlink12 := true } := by
+  have := decset_effect t g.st 12
+  have d : dec 12 = [49, 50] := by decide
+  rw [d] at this
+  have e : t.feed [27,91,63,49,50,104] = t.decMode 12 true := by simpa [csiSeq] using this
+  rw [e]; simp [decMode, withModes]
+
+theorem decrst12_effect {rw} {t : Term} (g : Good rw t) :
+    t.feed [27,91,63,49,50,108] = withModes t { t.modes with cursorBlink12 := false } := by
+  have := decrst_effect t g.st 12
+  have d : dec 12 = [49, 50] := by decide
+  rw [d] at this
+  have e : t.feed [27,91,63,49,50,108] = t.decMode 12 false := by simpa [csiSeq] using this
+  rw [e]; simp [decMode, withModes]
+
+theorem sm34_effect {rw} {t : Term} (g : Good rw t) :
+    t.feed [27,91,51,52,104] = withModes t { t.modes with sm34 := true } := by
+  have := feed_csi_plain t g.st [51, 52] 0x68 [[some 34]] (by intro b hb; simp at hb; rcases hb with h | h <;> omega) (by omega)
+    (by decide)
+  simp only [csiSeq, List.cons_append, List.nil_append] at this
+  rw [this]; simp [dispatchPlain, flat, eachParam, ansiMode, withModes]
+
+/-- the four `cnorm` forms of the class: the cursor becomes visible; blink (`?12`) / `34` may change, nothing else -/
+theorem showForm_effect {rw} {t : Term} (g : Good rw t) (s : Bytes) (hs : s ∈ showForms) :
+    ∃ m', t.feed s = withModes t m' ∧ ModesOk t.modes m' ∧ m'.cursorVisible = true ∧ m'.cursorShape = t.modes.cursorShape := by
+  simp only [showForms, List.mem_cons, List.not_mem_nil, or_false] at hs
+  rcases hs with rfl | rfl | rfl | rfl
+  · exact ⟨_, decset25_effect g, ⟨rfl, rfl, rfl, rfl, rfl⟩, rfl, rfl⟩
+  · refine ⟨{ t.modes with cursorBlink12 := false, cursorVisible := true }, ?_, ⟨rfl, rfl, rfl, rfl, rfl⟩, rfl, rfl⟩
+    show t.feed ([27,91,63,49,50,108] ++ [27,91,63,50,53,104]) = _
+    rw [← feed_append, decrst12_effect g, decset25_effect (good_withModes g (m := { t.modes with cursorBlink12 := false }) ⟨rfl, rfl, rfl, rfl, rfl⟩)]; rfl
+  · refine ⟨{ t.modes with sm34 := true, cursorVisible := true }, ?_, ⟨rfl, rfl, rfl, rfl, rfl⟩, rfl, rfl⟩
+    show t.feed ([27,91,51,52,104] ++ [27,91,63,50,53,104]) = _
+    rw [← feed_append, sm34_effect g, decset25_effect (good_withModes g (m := { t.modes with sm34 := true }) ⟨rfl, rfl, rfl, rfl, rfl⟩)]; rfl
+  · refine ⟨{ t.modes with cursorBlink12 := true, cursorVisible := true }, ?_, ⟨rfl, rfl, rfl, rfl, rfl⟩, rfl, rfl⟩
+    show t.feed ([27,91,63,49,50,104] ++ [27,91,63,50,53,104]) = _
+    rw [← feed_append, decset12_effect g, decset25_effect (good_withModes g (m := { t.modes with cursorBlink12 := true }) ⟨rfl, rfl, rfl, rfl, rfl⟩)]; rfl
+
+/-- **DECSCUSR** `ESC [ n SP q` for the seven cursor styles tcell has (0 default … 6 steady bar) -/
+theorem decscusr_effect {rw} {t : Term} (g : Good rw t) (n : Nat) (hn : n < 7) :
+    t.feed (decscusr n) = withModes t { t.modes with cursorShape := n } := by
+  have e : decscusr n = csiSeq [48 + n, 32] 0x71 := rfl
+  rw [e, feed_csi t g.st _ _ (by intro b hb; simp at hb; rcases hb with h | h <;> omega) (by omega)]
+  have hp : parseCsiBody [48 + n, 32] = some { priv := 0, params := [[some n]], inter := [32] } := by
+    have : n = 0 ∨ n = 1 ∨ n = 2 ∨ n = 3 ∨ n = 4 ∨ n = 5 ∨ n = 6 := by omega
+    rcases this with rfl | rfl | rfl | rfl | rfl | rfl | rfl <;> decide
+  have h6 : n ≤ 6 := by omega
+  simp [dispatchCsi, hp, flat, arg, h6, withModes]
+
+theorem cursorStylesStd_get (cs : Nat) :
+    cursorStylesStd[cs]? = if cs < 7 then some (decscusr cs) else none := by
+  have : cs = 0 ∨ cs = 1 ∨ cs = 2 ∨ cs = 3 ∨ cs = 4 ∨ cs = 5 ∨ cs = 6 ∨ 7 ≤ cs := by omega
+  rcases this with rfl | rfl | rfl | rfl | rfl | rfl | rfl | h
+  all_goals first | rfl | skip
+  have : ¬ cs < 7 := by omega
+  rw [if_neg this]
+  simp [cursorStylesStd]; omega
+
+/-- **`CapsFx.show_` for the class**: showCursor (tscreen.go:977-991) with no cursor-colour request — `cnorm` in any of
+the four forms of the class, then DECSCUSR for the cursor styles 0…6 when the screen has cursor-style strings (styles ≥ 7
+do not exist in tcell; nothing is written for them).  Only `modes` changes: the cursor is visible, the shape is the
+requested one (or unchanged when no style string is written); the fields the draw invariant depends on are untouched. -/
+theorem xl_show_effect {rw} {rc : RenderCfg} (hx : XtermLike rc.ti = true) (hd : rc.d = derive rc.ti) {t : Term} (g : Good rw t)
+    (cs cc : Nat) (hv : Color.valid cc = false) (hr : cc ≠ colorReset) :
+    ∃ m', t.feed (Render.render rc (.showCursor cs cc)) = { t with modes := m' } ∧ ModesOk t.modes m' ∧
+      m'.cursorVisible = true ∧ (cs < 7 → rc.d.cursorStyles ≠ none → m'.cursorShape = cs) ∧
+      (7 ≤ cs ∨ rc.d.cursorStyles = none → m'.cursorShape = t.modes.cursorShape) := by
+  have U := xl_ucaps hx hd
+  have hc : tp rc rc.ti.showCursor = rc.ti.showCursor := by
+    apply tp_clean
+    have hm := U.showC
+    revert hm; generalize rc.ti.showCursor = s; intro hm
+    simp only [showForms, List.mem_cons, List.not_mem_nil, or_false] at hm
+    rcases hm with rfl | rfl | rfl | rfl <;> decide
+  have ecol : (if (!rc.d.cursorRGB.isEmpty) = true then
+       (if cc = colorReset then tp rc rc.d.cursorFg
+        else if Color.valid cc = true then tp rc (parm rc.d.cursorRGB (ints (Render.rgbOf cc))) else [])
+     else []) = ([] : Bytes) := by
+    simp [hv, hr]
+  obtain ⟨m1, e1, mo1, v1, s1⟩ := showForm_effect g _ U.showC
+  have g1 := good_withModes g mo1
+  simp only [Render.render, ecol, List.append_nil, hc]
+  rw [← feed_append, e1]
+  rcases U.cstyles with hn | hs
+  · rw [hn]
+    exact ⟨m1, rfl, mo1, v1, fun _ h => absurd rfl h, fun _ => s1⟩
+  · rw [hs]
+    simp only [cursorStylesStd_get]
+    by_cases h7 : cs < 7
+    · simp only [if_pos h7, tp_clean rc (decscusr cs) (by
+        intro b hb; simp only [decscusr, List.mem_cons, List.not_mem_nil, or_false] at hb
+        rcases hb with h | h | h | h | h <;> omega)]
+      rw [decscusr_effect g1 cs h7]
+      refine ⟨{ m1 with cursorShape := cs }, rfl, mo1.trans ⟨rfl, rfl, rfl, rfl, rfl⟩, v1, fun _ _ => rfl, ?_⟩
+      rintro (h | h)
+      · omega
+      · cases h
+    · simp only [if_neg h7]
+      refine ⟨m1, rfl, mo1, v1, fun h => absurd h h7, fun _ => s1⟩
+
+
+/-! ## clearScreen -/
+
+/-- `ESC [ J` (ED 0) with the cursor at home erases every cell -/
+theorem ed0_home_effect (t : Term) (hst : t.st = .ground) (hk : t.cursorKnown = true) (hx : t.cx = 0) (hy : t.cy = 0) :
+    ∃ G : Grid, t.feed [27, 91, 74] = { t with grid := G } ∧ G.w = t.grid.w ∧ G.h = t.grid.h ∧
+      ∀ x y, x < t.grid.w → y < t.grid.h → G.get x y = t.blankCell := by
+  have := feed_csi_plain t hst [] 0x4a [[none]] (by simp) (by omega) rfl
+  simp only [csiSeq, List.append_nil, List.cons_append, List.nil_append] at this
+  refine ⟨(if (t.grid.get 0 0).cont then t.grid.clobber t.blocks 0 0 else t.grid).eraseSel t.blankCell
+    (fun x y => decide (0 < y) || (decide (y = 0) && decide (0 ≤ x))), ?_, ?_, ?_, ?_⟩
+  · rw [this]
+    simp [dispatchPlain, flat, arg, eraseDisplay, hk, hx, hy]
+  · simp only [Grid.eraseSel, Grid.build]; split <;> simp
+  · simp only [Grid.eraseSel, Grid.build]; split <;> simp
+  · intro x y hx' hy'
+    simp only [Grid.eraseSel]
+    rw [Grid.get_build _ _ _ _ _ (by split <;> simpa using hx') (by split <;> simpa using hy')]
+    have : 0 < y ∨ y = 0 := by omega
+    rcases this with h | h <;> simp [h]
+
+/-- the two `clear` forms of the class (`ESC [ H ESC [ 2 J`, `ESC [ H ESC [ J`): cursor home, every cell blank with the
+    current background -/
+theorem clearForm_effect {rw} {t : Term} (g : Good rw t) (s : Bytes) (hs : s ∈ clearForms) :
+    ∃ G : Grid, t.feed s = { t with grid := G, cx := 0, cy := 0, pendingWrap := false, cursorKnown := true } ∧
+      G.w = t.grid.w ∧ G.h = t.grid.h ∧ ∀ x y, x < t.grid.w → y < t.grid.h → G.get x y = t.blankCell := by
+  simp only [clearForms, List.mem_cons, List.not_mem_nil, or_false] at hs
+  rcases hs with rfl | rfl
+  · exact ⟨_, clear_effect t g.st, rfl, rfl, fun x y hx hy => Grid.get_fill _ _ _ _ _ hx hy⟩
+  · show ∃ G : Grid, t.feed ([27, 91, 72] ++ [27, 91, 74]) = _ ∧ _
+    rw [← feed_append, cup_home_effect t g.st]
+    obtain ⟨G, e, hw, hh, hc⟩ := ed0_home_effect
+      { t with cx := 0, cy := 0, pendingWrap := false, cursorKnown := true } g.st rfl rfl rfl
+    exact ⟨G, e, hw, hh, hc⟩
+
+/-- **`CapsFx.clear` for the class** — clearScreen (tscreen.go:1027): `sgr0`, hyperlink off, the colours of the style,
+`clear`.  Every cell of the emulator grid becomes a known blank carrying the style's background (bce), the cursor is at
+home, the pen is the style's colours and known; modes (cursor visibility and shape included) and size are unchanged. -/
+theorem xl_clear_effect {rw} {rc : RenderCfg} (hx : XtermLike rc.ti = true) (hd : rc.d = derive rc.ti) (hfit : FitOk rc)
+    {t : Term} (g : Good rw t) (s : Style) :
+    ∃ G : Grid, t.feed (Render.render rc (.clear s)) =
+        { t with grid := G, cx := 0, cy := 0, pendingWrap := false, cursorKnown := true, penKnown := true, linkKnown := true,
+                 pen := { fg := colSel rc s.fg, bg := colSel rc s.bg } } ∧
+      G.w = t.grid.w ∧ G.h = t.grid.h ∧
+      ∀ x y, x < t.grid.w → y < t.grid.h →
+        G.get x y = { runes := [], pen := { bg := colSel rc s.bg }, garbage := false, stamp := t.blocks } := by
+  have X := xl_facts hx hd
+  have C := xl_colcaps hx
+  have U := xl_ucaps hx hd
+  have hcl : tp rc rc.ti.clear = rc.ti.clear := by
+    apply tp_clean
+    have hm := U.clear
+    revert hm; generalize rc.ti.clear = c; intro hm
+    simp only [clearForms, List.mem_cons, List.not_mem_nil, or_false] at hm
+    rcases hm with rfl | rfl <;> decide
+  simp only [Render.render, X.exitUrl, tp_clean rc urlClose (by decide), hcl]
+  simp only [← feed_append]
+  rw [xl_attrOff_effect hx g, urlClose_effect (good_reset g)]
+  have g1 : Good rw ({ reset t with linkKnown := true, pen := { (reset t).pen with link := none } } : Term) :=
+    ⟨g.st, g.utf8, g.font, g.g0, g.so, g.irm, g.mal, g.rw⟩
+  rw [(xl_sendFgBg_effect C hfit g1 rfl rfl s.fg s.bg 0).1]
+  have g2 := good_withPen g1 { ({ reset t with linkKnown := true, pen := { (reset t).pen with link := none } } : Term).pen with
+    fg := colSel rc s.fg, bg := colSel rc s.bg }
+  obtain ⟨G, e, hw, hh, hc⟩ := clearForm_effect g2 _ U.clear
+  refine ⟨G, ?_, hw, hh, ?_⟩
+  · rw [e]; rfl
+  · intro x y hx' hy'; rw [hc x y hx' hy']; rfl
+
+
+/-! ## `CapsFx` for the class -/
+
+/-- **the hypothesis `CfgB.fx` holds for every `XtermLike` terminal description**, whatever the draw configuration, the
+truecolor switch and the colour-fitting function (as long as it returns palette entries, `FitOk`) -/
+theorem xl_capsFx (dc : DrawCfg) {rc : RenderCfg} (hx : XtermLike rc.ti = true) (hd : rc.d = derive rc.ti) (hfit : FitOk rc) :
+    CapsFx dc rc :=
+  { goto := fun _ x y g h1 h2 => xl_goto_effect hx g x y h1 h2
+    pen := fun _ s g hs => xl_setPen_effect hx hd hfit g s hs
+    hide := fun _ g => xl_hide_effect hx g
+    show_ := fun t cs cc g hv hr => by
+      obtain ⟨m', e, mo, v, sh, _⟩ := xl_show_effect hx hd g cs cc hv hr
+      exact ⟨m', e, mo, v, sh⟩
+    clear := fun t s g => by
+      obtain ⟨G, e, hw, hh, _⟩ := xl_clear_effect hx hd hfit g s
+      refine ⟨_, rfl, ?_, ?_, ?_, ?_, ?_⟩
+      · rw [e]; exact ⟨g.st, g.utf8, g.font, g.g0, g.so, g.irm, g.mal, g.rw⟩
+      · rw [e]; exact hw
+      · rw [e]; exact hh
+      · rw [e]
+      · rw [e] }
+
 end Tcell.LayerB
